@@ -123,7 +123,14 @@ def render_entry(e: Entry, indent: int) -> list[str]:
     if e.blank_before:
         lines.append("")
     for c in e.above:
-        lines.append(f"{pad}# {c}")
+        if isinstance(c, tuple):
+            # multi-line block comment: (first line, body lines with their own relative depth)
+            lines.append(f"{pad}/* {c[0]}")
+            for depth, body in c[1]:
+                lines.append(f"{pad}{' ' * (3 + depth)}{body}")
+            lines.append(f"{pad}*/")
+        else:
+            lines.append(f"{pad}# {c}")
     if e.kind == "inherit":
         body = [pad + _entry_inline(e)]
     elif e.kind == "nested":
@@ -356,6 +363,12 @@ class DocGen:
         cr = self.comment_rate
         if r.random() < 0.10 * cr:
             e.above = [self.comment()]
+            if r.random() < 0.15:
+                # a block comment over several lines, body lines of different depth (an indented
+                # example followed by prose)
+                shape = r.choice([[(0, "second line")], [(4, "deeper example"), (0, "back again")],
+                                  [(2, "a"), (4, "b"), (0, "c")]])
+                e.above = [(self.comment(), shape)]
             if r.random() < 0.2:
                 e.above.append(self.comment())
         if r.random() < 0.07 * cr and not e.value_lines:
